@@ -477,9 +477,11 @@ def bank(pid, tier, seed):
             for r in (2, 3, 7, 8, 10, 16, 32, 36):
                 cases.append(("uto_str", hx(a), hx(r)))
                 cases.append(("ito_str", hx(-a), hx(r)))
-            for r in (2, 3, 10, 16, 100, 255, 256):
+            for r in (2, 3, 10, 16, 100, 255, 256, 0, 1, 257, 512, 1000):
                 cases.append(("uto_radix_le", hx(a), hx(r)))
                 cases.append(("uto_radix_be", hx(a), hx(r)))
+            for r in (0, 1, 37, 64):
+                cases.append(("uto_str", hx(a), hx(r)))
     elif pid == "C07":
         for a, b in signed(pairs(5)):
             for op in ("iand", "ior", "ixor"):
